@@ -217,9 +217,11 @@ TRANSLATOR_NOTE = (" Translator tie (harness/py2coq_order.py, fail-closed Python
                    "is about the code's own comparator), `>` its converse, == / <= / >= / != consistent, mixed sides raise ValueError, is_expired is the model's "
                    "expiry test. A change the translator cannot read, or one that breaks a theorem, is searched for a concrete failing pair on the real Order "
                    "objects (exhaustive small-domain sweep) and otherwise reported with no-failing-input-found.")
-def _arith_tie():
-    import translated
-    return translated.arith_tie()
+def _arith_tie_for(group):
+    def tie():
+        import translated
+        return translated.arith_tie(group)
+    return tie
 
 
 ARITH_NOTE = (" Translator tie (harness/py2coq_arith.py, fail-closed Python-ast -> Gallina over exact rationals): PriceLimitRule.get_limited_price and "
@@ -228,9 +230,14 @@ ARITH_NOTE = (" Translator tie (harness/py2coq_arith.py, fail-closed Python-ast 
               "C15 theorems are about), market orders pass, foreign markets are refused; the generated tick level is floor for buys / ceiling for sells and level x tick "
               "is the model's round_price off the grid (the one all C19 theorems are about). Floating-point rounding of the arithmetic is not part of this tie.")
 for _p in ("C15", "C19"):
-    CLAIMS[_p]["ties"] = (_arith_tie,)
+    CLAIMS[_p]["ties"] = (_arith_tie_for(_p),)
     CLAIMS[_p]["text"] += ARITH_NOTE
     CLAIMS[_p]["technique"] += " + source-to-Gallina translator tie for the arithmetic kernel (regenerated and re-proved every run)"
+CLAIMS["C03"]["ties"] = (_arith_tie_for("C03"),)
+CLAIMS["C03"]["text"] += (" Translator tie: Market.remain_executable_orders (the decision whether a round has anything to do) is regenerated from the source on every run and "
+                          "proved equal to the model's executable_b for all books, given the quantities it reads from the books (emptiness, best prices, market-order volumes, numbers of "
+                          "limit levels, lowest ask / highest bid level); it never raises on them.")
+CLAIMS["C03"]["technique"] += " + source-to-Gallina translator tie for the executability decision (regenerated and re-proved every run)"
 for _p, _sw in (("C02", _order_sweep_c02), ("C04", _order_sweep_c04)):
     CLAIMS[_p]["ties"] = (_order_tie,)
     CLAIMS[_p]["extra_checks"] = _sw
